@@ -1440,6 +1440,17 @@ def _model_to_sbml(
             flux_obj.setReaction(rid)
             flux_obj.setCoefficient(cobra_reaction.objective_coefficient)
 
+    if objective.getNumFluxObjectives() == 0:
+        # An <objective> without flux objectives is not valid fbc. Keep the
+        # direction with an explicit zero coefficient where possible.
+        if model.getNumReactions() > 0:
+            flux_obj = objective.createFluxObjective()
+            flux_obj.setReaction(model.getReaction(0).getIdAttribute())
+            flux_obj.setCoefficient(0.0)
+        else:
+            model_fbc.unsetActiveObjectiveId()
+            model_fbc.removeObjective("obj")
+
     # write groups
     if len(cobra_model.groups) > 0:
         doc.enablePackage(
